@@ -1,6 +1,6 @@
 (** C15 — property theorems only.  Each is closed by [exact] of a lemma in Proofs*.v and followed by
     [Print Assumptions]. *)
-From V Require Import Base.Util Gql.Ast C15.Model C15.Spec C15.Proofs1 C15.Proofs2 C15.Proofs3 C15.Proofs4 C15.Proofs.
+From V Require Import Base.Util Gql.Ast C15.Model C15.Spec C15.Proofs1 C15.Proofs2 C15.Proofs3 C15.Proofs4 C15.Proofs5 C15.Proofs C15.Corr C15.CorrProofs.
 
 (** For every schema model M satisfying the guard, every key style and with or without the introspection types in
     the result: the JSON route accepts the standard introspection result of M, and the Schema it builds is
@@ -67,6 +67,27 @@ Theorem C15_printers_see_same_types : forall st meta M D,
       = option_map (fun d => strip_typedef (norm_typedef d)) (get_type (ast_to_type_system D) n).
 Proof. exact printers_see_same_types. Qed.
 Print Assumptions C15_printers_see_same_types.
+
+(** The boolean comparison the correspondence run evaluates on the implementation's two Schema values
+    (Corr.holds on a CRoutes case) implies the equivalence stated above. *)
+Theorem C15_schema_equiv_b_sound : forall vis a b, schema_equiv_b vis a b = true -> schema_equiv_on vis a b.
+Proof. exact schema_equiv_b_sound. Qed.
+Print Assumptions C15_schema_equiv_b_sound.
+
+(** The boolean form of [doc_equiv] evaluated per case is sound. *)
+Theorem C15_doc_equiv_b_sound : forall D D0, doc_equiv_b D D0 = true -> doc_equiv D D0.
+Proof. exact doc_equiv_b_sound. Qed.
+Print Assumptions C15_doc_equiv_b_sound.
+
+(** A certified case: when [agree] evaluates to true on a both-routes case (the model reproduces the two Schema values
+    the implementation produced for SDL document D and JSON tree J, J is the introspection result of M, D says what the
+    SDL of M says, M satisfies the guard), then the implementation's own two outputs are equivalent — by
+    C15_routes_agree, not by comparing them. *)
+Theorem C15_certified_case : forall st meta M D J out_sdl out_json,
+  agree (CRoutes false true st meta M D J out_sdl out_json) = true ->
+  exists Sj, out_json = Ok Sj /\ schema_equiv_on (vis_of M) Sj out_sdl.
+Proof. exact certified_case. Qed.
+Print Assumptions C15_certified_case.
 
 (** The guard and the restriction to [vis_of M] are needed by the code as it is: *)
 Theorem C15_shadow_root_refuted :
